@@ -4,6 +4,7 @@ import ZoektModel.C01.BTree
 import ZoektModel.C01.Word
 import ZoektModel.C01.Select
 import ZoektModel.C01.CaseVariants
+import ZoektModel.C01.Postings
 namespace ZoektModel.C01
 open ZoektModel ZoektModel.Proto
 
@@ -81,6 +82,38 @@ partial def shapes : MTs → List String
   | .cons h t => shape h ++ shapes t
 end
 
+/-- the posting lists the real iterators yielded are the ones the theorems talk about: for a case-sensitive leaf exactly
+    `post` of the selected trigram, for a case-insensitive leaf a cover of `post` of the lowered trigram in the
+    lower-cased texts (the hypothesis of `substr_ci_leaf_ok`) -/
+def subPostingsOK (ctx : Ctx) (s : Sub) : Bool :=
+  match s.it with
+  | Option.none => true
+  | some it =>
+    let texts := if s.fileName then ctx.names else ctx.contents
+    let T := if s.caseSens then texts else texts.map (List.map toLowerRune)
+    let ok (b : Basic) (k : Nat) : Bool :=
+      let want := post (tri s.pat k) T
+      if s.caseSens then b == [want] else want.all (fun q => b.any (·.contains q))
+    match it.iter with
+    | .basic b => ok b it.leftPad
+    | .dist x => ok x.i1 it.leftPad && ok x.i2 (it.leftPad + x.d)
+
+mutual
+partial def postingsOK (ctx : Ctx) : MT → Bool
+  | .sub s => subPostingsOK ctx s
+  | .and _ ch => postingsOKs ctx ch
+  | .andLine _ _ ch => postingsOKs ctx ch
+  | .or _ ch => postingsOKs ctx ch
+  | .not _ c => postingsOK ctx c
+  | .fileName _ c => postingsOK ctx c
+  | .boost _ c => postingsOK ctx c
+  | .noVisit c => postingsOK ctx c
+  | _ => true
+partial def postingsOKs (ctx : Ctx) : MTs → Bool
+  | .nil => true
+  | .cons h t => postingsOK ctx h && postingsOKs ctx t
+end
+
 def showRaw (n : Nat) : String := if n = maxU32 then "M" else toString n
 
 def showSt : St → String
@@ -116,7 +149,10 @@ def handleSearch (live names contents tree impl : String) : String :=
       let res := if impl == "tree=nil" then some [] else implRes? impl
       match res with
       | Option.none => badCase "impl output"
-      | some r => if checkP ctx mt r then answer model else specFail model "search-result-differs-from-scan"
+      | some r =>
+        if !(checkP ctx mt r) then specFail model "search-result-differs-from-scan"
+        else if !(postingsOK ctx mt) then specFail model "posting-lists-differ-from-the-occurrences-of-the-trigram"
+        else answer model
     | _ => badCase "tree"
   | _, _, _ => badCase "fields"
 
